@@ -765,3 +765,13 @@ def pcdelta_cross_calls(rng):
     for _ in range(300):
         yield {"df": _grouped_table(rng, n=rng.randint(4, 10)), "by": {"t": "const", "v": "g"}, "seq_columns": {"t": "const", "v": "a"},
                "condensed": {"t": "const", "v": rng.random() < 0.3}, "kwargs": {"t": "dict", "items": {"bins": I(0)}}}
+
+
+# ---- C19
+@scope("consensus_calls", "regex_calls")
+def consensus_calls(rng):
+    for _ in range(300):
+        L = rng.randint(0, 5)
+        n = rng.randint(1, 6)
+        seqs = ["".join(rng.choice("ACD") for _ in range(L)) for _ in range(n)]
+        yield {"seqs": seq([S(x) for x in seqs], "list"), "align": {"t": "const", "v": False}}
